@@ -1,6 +1,7 @@
 package sim
 
 import (
+	"runtime"
 	"bufio"
 	"flag"
 	"fmt"
@@ -113,6 +114,12 @@ func Bubble(t *testing.T, realDeadline time.Duration, f func(t *testing.T) strin
 		ch <- res
 	}()
 	hang := func() string {
+		if d := os.Getenv("VERIF_HANGSTACKS"); d != "" { // debugging aid: all goroutine stacks at the moment of the hang
+			buf := make([]byte, 8<<20)
+			n := runtime.Stack(buf, true)
+			os.MkdirAll(d, 0o755)
+			os.WriteFile(fmt.Sprintf("%s/hang-%d.txt", d, time.Now().UnixNano()), buf[:n], 0o644)
+		}
 		if p := Partial.Load(); p != nil {
 			s := (*p)()
 			if f := os.Getenv("VERIF_HANGLOG"); f != "" {
